@@ -494,3 +494,13 @@ class CaseFile:
             for c in cids:
                 out.setdefault(c, []).append((m.get("code") or {}).get("code", "") + ":" + m.get("message", ""))
         return out, stray
+
+
+def hook_fields(ans):
+    """Parses the `attr` hook answer `ok k=v<GS>k=v...` into a dict (lists split at RS, parts at US)."""
+    assert ans.startswith("ok ")
+    out = {}
+    for part in ans[3:].split("\x1d"):
+        k, _, v = part.partition("=")
+        out[k] = v
+    return out
